@@ -253,7 +253,7 @@ def audit(prop, log, modules=None):
     return res
 
 
-def run_lines(binary, lines, env=None, timeout=3600, nproc=1):
+def run_lines(binary, lines, env=None, timeout=300, nproc=1):
     """feed lines to a line-protocol binary, return list of output lines (one per input line).
     With nproc>1 the input is split in contiguous chunks run in parallel.
     A crashed process is re-run line by line around the crash so that one bad line costs one 'crash'."""
